@@ -46,3 +46,31 @@ def tensor_has_attr(name):
 
         _ATTR[name] = hasattr(torch.Tensor, name)
     return _ATTR[name]
+
+
+_INT_MM = {}
+
+
+def int_mm_exact_classes():
+    """A-TORCH-CAP for torch._int_mm on this build (CPU): for which (inner size == 1?, second operand a transposed view?) classes does the
+    kernel return the exact integer product?  Probed on small shapes against the int32 reference.  -> {(k_is_one, transposed): bool}"""
+    if _INT_MM:
+        return _INT_MM
+    import torch
+
+    g = torch.Generator().manual_seed(0)
+    for k_one in (True, False):
+        for transposed in (True, False):
+            ok = True
+            for n in (1, 4, 17, 24):
+                for p in (1, 3, 8):
+                    for k in ((1,) if k_one else (2, 3, 8, 16)):
+                        a = torch.randint(-128, 127, (n, k), dtype=torch.int8, generator=g)
+                        b = torch.randint(-128, 127, (p, k), dtype=torch.int8, generator=g).t() if transposed else torch.randint(-128, 127, (k, p), dtype=torch.int8, generator=g)
+                        try:
+                            if not torch.equal(torch._int_mm(a, b), a.int() @ b.int()):
+                                ok = False
+                        except Exception:
+                            pass    # (argument checks of the kernel are another matter)
+            _INT_MM[(k_one, transposed)] = ok
+    return _INT_MM
